@@ -79,7 +79,7 @@ structure AliveMsg where
   port : Nat
   md : Nat
   vsn : List Nat
-  deriving Repr
+  deriving DecidableEq, Repr
 
 /-- environment of one call: logical time stamp, allow-list verdict for the claimed address,
 alive-delegate verdict, random insertion offset, name of the address string used as queue name -/
@@ -202,7 +202,7 @@ structure Claim where   -- suspect / dead message
   inc : Nat
   node : String
   frm : String
-  deriving Repr
+  deriving DecidableEq, Repr
 
 /-- `suspicion.Confirm` (bookkeeping part; the timing part is `Swim.Model.Susp`) -/
 def Timer.confirm (t : Timer) (frm : String) : Timer × Bool :=
@@ -260,7 +260,7 @@ structure PushState where
   ipAllowed : Bool    -- environment verdicts for this entry
   delegateOk : Bool
   offset : Nat
-  deriving Repr
+  deriving DecidableEq, Repr
 
 /-- `mergeState`: alive → aliveNode, left → deadNode(from = name), dead|suspect → suspectNode(from = self) -/
 def mergeOne (n : Node) (r : PushState) (now : Nat) : Node × List Out :=
